@@ -655,10 +655,15 @@ func runNodeRestart(dir string, seed uint64, tier string) {
 					pre := append([]nStep{sRegister("T1")}, base...)
 					switch extra {
 					case "voucher":
+						// the later voucher has another (registered) type than the opening one: a restart is still
+						// decided by the validator of the opening voucher's type
+						pre = append([]nStep{sRegister("T2")}, pre...)
 						if roleInitiator(role) {
-							pre = append(pre, sVoucher(k, 5))
+							v := sVoucher(k, 5)
+							v.VType = "T2"
+							pre = append(pre, v)
 						} else {
-							pre = append(pre, sMReq(other, msgSpec{IsReq: true, Type: mtVoucher, Tid: k.Tid, VType: "T1", VNode: 5}))
+							pre = append(pre, sMReq(other, msgSpec{IsReq: true, Type: mtVoucher, Tid: k.Tid, VType: "T2", VNode: 5}))
 						}
 					case "progress":
 						kd := 2
@@ -689,6 +694,9 @@ func runNodeRestart(dir string, seed uint64, tier string) {
 						valid := restartReq(k.Tid, pull)
 						last := valid
 						last.VNode = 5 // the most recent voucher instead of the original one
+						if extra == "voucher" {
+							last.VType = "T2"
+						}
 						mut := func(f func(m *msgSpec)) msgSpec { m := valid; f(&m); return m }
 						tries = []nStep{
 							{Kind: "restart", K: k, Vals: []valSpec{accept}},
